@@ -118,7 +118,9 @@ func (j *judgeCtx) buildLife() {
 	li := 0
 	for _, c := range j.r.calls {
 		if c.K == opSettle || (c.K == opSample && c.AtRest) {
-			if pendingStop && c.Ret != 0 {
+			// (the asynchronous stop waits for the jobs in flight: a quiescent point with a gated
+			// job still running, or an acknowledgement stalled, does not mean it is through)
+			if pendingStop && c.Ret != 0 && j.inflightAt(c.Inv) == 0 && !(c.K == opSettle && c.Val2 != 0) {
 				pendingStop = false
 				if st != lsI {
 					st = lsS
@@ -921,6 +923,13 @@ func (j *judgeCtx) checkCancel() {
 var statusRank = map[string]int{"Created": 0, "Queued": 1, "Processing": 2, "Finished": 3, "Closed": 4}
 
 func (j *judgeCtx) checkStatus() {
+	// batch items, read through the job object the queue was given, right after Wait() on
+	// their batch returned: "once Wait has returned it reads Closed"
+	for _, c := range j.r.calls {
+		if c.K == opStatus && c.Arg == 3 && (c.Str != "Closed" || !c.OK) {
+			j.add("C16.c", c.Ret, "batch %d item %d reports %q (IsClosed=%v) at %d although Wait() on the batch had returned", c.Batch, c.Sub, c.Str, c.OK, c.Ret)
+		}
+	}
 	wd := j.wd
 	last := make([]int, len(wd.subs))
 	lastSeq := make([]uint64, len(wd.subs))
@@ -1230,8 +1239,12 @@ func (j *judgeCtx) atRestWorker(c *Call, exits int) {
 			}
 			seen[q.ad] = true
 			for i, o := range q.ad.subOwner {
-				if o == wd && i < len(q.ad.notifies) {
-					want += q.ad.notifies[i]
+				if o == wd && i < len(q.ad.notifyAt) {
+					for _, at := range q.ad.notifyAt[i] {
+						if at <= c.Inv {
+							want++
+						}
+					}
 				}
 			}
 		}
